@@ -52,24 +52,26 @@ CHECKS = {
         design_ref="DESIGN.md sections 5 (C14) and 10.2",
         technique="Coq proof (hover: full functional statement for valid programs via the parser round trip and the typing theorems; signature help: answer shape) over Gallina models of the handlers + correspondence through the binary + scoping oracle"),
     "C15": dict(
-        category="other",
-        text="Machine-checked (Props/C15.v, 14 theorems) over the model of semantic_tokens.rs. For ALL documents satisfying the "
-             "executable predicate doc_wf_b: no slice panic and no u32 underflow (C15_no_panic), the decoded stream is the image "
-             "of an order-preserving subsequence of the document's lexical tokens with their positions and UTF-16 lengths "
-             "(C15_coincide), strictly increasing and disjoint, keywords / numbers / comments carry exactly their lexical class and "
-             "are ALL reported, including comments behind the last declaration (C15_lexical_reported_everywhere; declarations plus "
-             "trailing slice cover every token: C15_new_doc_covered). doc_wf_b is proved for lexer output (token half) and parser "
-             "output (ordering half) and reduced to a name condition for analysed documents; that condition is evaluated by the "
-             "judge on every case and PROVED for every valid program (C15_valid_doc_wf). For EVERY valid program in every layout "
-             "(C15_valid: abstract program of the grammar, well-typed, any text that lexes to its tokens): every identifier "
-             "occurrence is reported with the kind of the entry it is bound to under SPL scoping (type / function / parameter / "
-             "variable) and the declaration modifier exactly on its declaring occurrence, and nothing else is reported at that "
-             "position - the binding-kind half of the property. Not proved: the wording `document without diagnostics` "
-             "(needs completeness of the front end), and doc_wf_b for documents with syntax errors beyond the proved halves. "
-             "Decided per input: model = server; well-formedness oracle on all documents incl. malformed; classification oracle "
-             "from the derivation (incl. type uses shadowed by locals, repaired in /repo b909979).",
+        category="proof",
+        text="Machine-checked (Props/C15.v, 18 theorems) over the model of semantic_tokens.rs; both halves of the property are "
+             "theorems. (1) For EVERY text, the document AnalyzedSource::new builds satisfies the executable well-formedness "
+             "predicate doc_wf_b (C15_new_doc_wf_total: token half for every lexer output, ordering half and `declaration names "
+             "end with an identifier token` for every parser output, any syntax errors), hence unconditionally: no slice panic and "
+             "no u32 underflow, the decoded stream is the image of an order-preserving subsequence of the document's lexical "
+             "tokens with their positions and UTF-16 lengths, strictly increasing and disjoint, keywords / numbers / comments "
+             "carry exactly their lexical class and are ALL reported, including comments behind the last declaration "
+             "(C15_new_doc_stream_total, C15_lexical_reported_everywhere_total; the same for all documents under doc_wf_b: "
+             "C15_no_panic, C15_coincide, C15_increasing, C15_disjoint, C15_lexical_class, C15_lexical_complete). (2) For EVERY "
+             "valid program in every layout (C15_valid: abstract program of the grammar, well-typed, any text that lexes to its "
+             "tokens): every identifier occurrence is reported with the kind of the entry it is bound to under SPL scoping (type / "
+             "function / parameter / variable) and the declaration modifier exactly on its declaring occurrence, and nothing else "
+             "is reported at that position. Scope of the proof: documents as built from a text; a document reached through "
+             "incremental updates equals that one only where C01 holds (known finding C01-incparse), and `valid program` is "
+             "`layout of a well-typed abstract program` rather than `document without diagnostics` (front-end completeness is not "
+             "proved). Tie to the code and search for failing inputs: model = server on generated programs, layouts and malformed "
+             "documents; well-formedness and classification oracles from the derivation.",
         design_ref="DESIGN.md sections 5 (C15) and 10.2",
-        technique="Coq proof (well-formedness of the delta-encoded stream for all well-formed documents; binding kinds and declaration modifier for every valid program via the parser round trip and the typing theorems) over a Gallina model + correspondence through the binary + classification oracle"),
+        technique="Coq proof (well-formedness of the delta-encoded stream for every analysed text; binding kinds and declaration modifier for every valid program via the parser round trip and the typing theorems) over a Gallina model + correspondence through the binary + classification oracle"),
     "C16": dict(
         category="other",
         text="Machine-checked for ALL documents and positions (Props/C16.v, 7 theorems) over a literal transcription of "
@@ -96,15 +98,18 @@ CHECKS = {
         technique="Coq proof (composition with the C04 round trip) over a Gallina model of the folding handler + correspondence through the binary"),
     "C09": dict(
         category="other",
-        text="Machine-checked (Props/C09.v, 16 theorems) over the model of formatting.rs (Model/Format.v). For EVERY abstract "
+        text="Machine-checked (Props/C09.v, 17 theorems) over the model of formatting.rs (Model/Format.v). For EVERY abstract "
              "program of the grammar without comments - and with comments in leading positions (in front of type / proc / var / a "
              "parameter / the first token of a statement) - every token vector with its kinds, and every option setting: the "
              "formatter emits exactly the spellings of the program's tokens, in order, separated only by whitespace that is "
              "non-empty wherever two spellings would otherwise merge (C09_structure, C09_structure_lead, by structural induction "
              "over the abstract syntax), hence the formatted text lexes to the same non-comment token kinds AND literal values "
              "with no lexical error (C09_tokens, C09_tokens_lead, C09_document, via C06 conformance); the single edit covers "
-             "exactly the whole document (C09_whole_edit, C09_whole_document_covers). Stated, not proved: programs with comments "
-             "in the gaps where the printer hoists or loses them (C10), and equality of diagnostics. Decided per input there: "
+             "exactly the whole document (C09_whole_edit, C09_whole_document_covers); and the formatted text of every comment-free "
+             "syntactically valid program, well-typed or not, is analysed to the same tree and table and yields the same "
+             "diagnostics - same messages, same order, same token-index ranges (C09_same_diagnostics: the analysis reads kinds "
+             "only). Stated, not proved: programs with comments in the gaps where the printer hoists or loses them (C10), and "
+             "equality of diagnostics for programs with comments. Decided per input there: "
              "model = real formatter on generated programs x layouts x options, and an implementation oracle re-lexes the "
              "formatted text with the real lexer, re-opens it (same diagnostics up to layout) and checks the edit range.",
         design_ref="DESIGN.md section 5, C09",
